@@ -17,7 +17,8 @@ import (
 // delivers mutants, replays and duplicates of genuine traffic; every such delivery that carries
 // nothing new from the tunnel's peer must leave the receiver's state digest and tun output unchanged.
 func TestC14_History(t *testing.T) {
-	vk.Check(t, 60, func(rt *rapid.T) {
+	nsSetT(t)
+	vk.Check(t, 150, func(rt *rapid.T) {
 		nsBubble(rt, func(rt *rapid.T, s *nsSim) {
 			h := nsRunHistory(rt, s, nsHistOpts{
 				pid:      "C14",
